@@ -80,6 +80,9 @@ static bool gen_regex(zckDL *dl) {
     dl->dl_regex = zmalloc(sizeof(regex_t));
     if(!dl->dl_regex || !create_regex(dl->zck, dl->dl_regex, regex_n)) {
         free(regex_n);
+        /* Don't leave an allocated but uncompiled pattern behind */
+        free(dl->dl_regex);
+        dl->dl_regex = NULL;
         return false;
     }
     free(regex_n);
@@ -89,6 +92,11 @@ static bool gen_regex(zckDL *dl) {
     dl->end_regex = zmalloc(sizeof(regex_t));
     if(!dl->end_regex || !create_regex(dl->zck, dl->end_regex, regex_e)) {
         free(regex_e);
+        free(dl->end_regex);
+        dl->end_regex = NULL;
+        regfree(dl->dl_regex);
+        free(dl->dl_regex);
+        dl->dl_regex = NULL;
         return false;
     }
     free(regex_e);
